@@ -24,7 +24,7 @@ func register(p *PropDef) { Properties[p.ID] = p }
 
 func init() {
 	register(&PropDef{
-		ID: "C20", Quick: 10000, Thorough: 200000,
+		ID: "C20", Quick: 10000, Thorough: 2000000,
 		Profiles: []ProfileDef{
 			{Name: "queue-direct", Share: 10, Sc: scQueueDirect},
 		},
@@ -33,7 +33,7 @@ func init() {
 
 func init() {
 	register(&PropDef{
-		ID: "C17", Quick: 20000, Thorough: 500000,
+		ID: "C17", Quick: 20000, Thorough: 5000000,
 		Profiles: []ProfileDef{
 			{Name: "store", Share: 10, Sc: scStore},
 		},
